@@ -2,6 +2,7 @@ package graph
 
 import (
 	"context"
+	"strconv"
 
 	openfgav1 "github.com/openfga/api/proto/openfga/v1"
 	"google.golang.org/protobuf/types/known/structpb"
@@ -10,6 +11,7 @@ import (
 	"github.com/openfga/openfga/internal/vtmodels"
 	"github.com/openfga/openfga/internal/vtsem"
 	"github.com/openfga/openfga/pkg/storage"
+	"github.com/openfga/openfga/pkg/storage/storagewrappers"
 	"github.com/openfga/openfga/pkg/tuple"
 	"github.com/openfga/openfga/pkg/typesystem"
 )
@@ -94,7 +96,16 @@ func VerifE01Check() {
 	vt.Event(u.Describe())
 
 	ctx := typesystem.ContextWithTypesystem(context.Background(), ts)
-	ctx = storage.ContextWithRelationshipTupleReader(ctx, &vtsem.Reader{S: st})
+	var reader storage.RelationshipTupleReader = &vtsem.Reader{S: st}
+	var ctxTuples []*openfgav1.TupleKey
+	if k := vt.ParamInt("ctx", 0); k > 0 {
+		// C04: the first k candidates are not in the store; those that are "present" are sent as contextual
+		// tuples through the real CombinedTupleReader. The reference semantics ignores the split.
+		ctxTuples = st.SplitContextual(k)
+		reader = storagewrappers.NewCombinedTupleReader(reader, ctxTuples)
+		vt.Event("contextual tuples: " + strconv.Itoa(len(ctxTuples)) + " of the first " + strconv.Itoa(k) + " valid candidates")
+	}
+	ctx = storage.ContextWithRelationshipTupleReader(ctx, reader)
 	vp := newVerifPlanner(vt.ParamInt("plan", -1))
 	opts := []LocalCheckerOption{WithPlanner(vp), WithOptimizations(vt.ParamInt("opt", 1) == 1)}
 	if b := vt.ParamInt("breadth", 0); b > 0 {
@@ -112,6 +123,7 @@ func VerifE01Check() {
 		AuthorizationModelID: m.GetId(),
 		TupleKey:             tuple.NewTupleKey(rq.obj, rq.rel, rq.user),
 		Context:              reqCtx,
+		ContextualTuples:     ctxTuples,
 	})
 	vt.Assert(rerr == nil, "NewResolveCheckRequest failed")
 	resp, cerr := checker.ResolveCheck(ctx, req)
